@@ -7,6 +7,8 @@ documented tag; Const / LoadConst built by `DfBase.load` must agree on that type
 
 from __future__ import annotations
 
+import json
+
 ID = "C14"
 META = {
     "level": "exploration",
@@ -14,7 +16,7 @@ META = {
              "nesting depth >= 2 or it is an array/list/static-array constant with >= 1 element"),
     "required": ["monitor:inhabits", "monitor:reported-type", "monitor:helper-tag", "monitor:const-load",
                  "feature:func-value", "feature:array", "feature:sugar", "monitor:selftest-negative",
-                 "monitor:embedded-elements"],
+                 "monitor:embedded-elements", "feature:one-shot-iterables"],
     "reach": ["hugr.val:Sum.type_", "hugr.val:Function.type_", "hugr.build.dfg:DfBase.load",
               "hugr.std.int:IntVal.to_value", "hugr.std.collections.array:ArrayVal.to_value"],
     "assumptions": [
@@ -70,7 +72,10 @@ def check_value(ctx, case, stratum="value"):
 
     td, vd = case
     tb = Builder()
-    V = VBuilder(tb).val(vd)
+    one_shot = len(json.dumps(vd)) % 2 == 1
+    if one_shot:
+        ctx.feat("feature:one-shot-iterables")
+    V = VBuilder(tb, one_shot=one_shot).val(vd)
     vj = dump(V)
     exp_t = wire.canon(wire_ty(type_of(vd)))
     # (1) inhabits
